@@ -234,6 +234,26 @@ def _defined_symbols(fs, prefix=None):
     return out
 
 
+def _add_comments(fd, salt):
+    """source_code_info with a leading comment on every message, top-level field, enum, service and method (what protoc
+    records for documented protos); `salt` lets an edited copy of an API differ in its comments only."""
+    def loc(path, text):
+        l = fd.source_code_info.location.add()
+        l.path.extend(path)
+        l.span.extend([len(fd.source_code_info.location), 0, 1])
+        l.leading_comments = f" {text}{(' ' + salt) if salt else ''}.\n"
+    for i, m in enumerate(fd.message_type):
+        loc([4, i], f"The {m.name} message")
+        for j, f in enumerate(m.field):
+            loc([4, i, 2, j], f"The {f.name} of a {m.name}")
+    for i, e in enumerate(fd.enum_type):
+        loc([5, i], f"The {e.name} enum")
+    for i, s in enumerate(fd.service):
+        loc([6, i], f"The {s.name} service")
+        for j, m in enumerate(s.method):
+            loc([6, i, 2, j], f"Calls {m.name} on {s.name}")
+
+
 def lower(spec):
     """Returns (all_files [deps first], target_file_names)."""
     symbol_file = {}
@@ -300,6 +320,8 @@ def lower(spec):
             need("google/cloud/extended_operations.proto")
         del txt
         fd.dependency.extend(deps)
+        if spec.get("comments"):
+            _add_comments(fd, str(spec.get("comment_salt", "")))
         targets.append(fd)
 
     # order: dependency closure from the default pool, then targets in dependency order
